@@ -124,19 +124,37 @@ def caout(out):
     return "AOther"
 
 
+LATE_SERVICE_THREADS = [0]
+
+
 def events_of_log(log, scn=None):
     evs = []
     shared = {}
     if scn is not None:
         shared = {int(k): v["shared"] for k, v in scn.get("payloads", {}).items() if "shared" in v}
     finished = {}        # group -> finished, not yet handed back payload ids (runs of one function object are interchangeable)
+    accepting = set()    # runners whose (admitted) accept call is in progress
+    late_services = set()
     for rec in log:
         e = rec["ev"]
         tid = rec["tid"]
         k = e[0]
+        if k in ("Start", "Step", "Finish", "Enter", "Exit") and e[1] == "s":
+            # The thread of a thread-flavoured service that the accept loop handed over while its run was closing may
+            # only come up after that run has ended.  The model attributes a service's start to the runner accepting at
+            # that moment and has no event for the hand-over itself: such a late thread is left to the python oracle
+            # (model limit, counted in the evidence as `late_service_threads`).
+            if k == "Start" and e[3] == "threading" and not accepting:
+                late_services.add(e[2])
+                LATE_SERVICE_THREADS[0] += 1
+                evs.append("DropService %d" % kid("s", e[2]))      # out of the model's sight from here on
+            if e[2] in late_services:
+                continue
         if k == "AcceptCall":
+            accepting.add(e[2])
             evs.append("AcceptCall %d" % e[2])
         elif k == "AcceptEnd":
+            accepting.discard(e[2])
             evs.append("AcceptEnd %d %s" % (e[2], caout(e[3])))
         elif k == "RunningSet":
             evs.append("RunningSet %d" % e[1])
@@ -1703,6 +1721,7 @@ def main(pid, coq_targets, tier=None, seed=None, replay=None, tie_targets=None, 
         "distinct_nontrivial": len(distinct),
         "traces_validated_against_impl": len(scns) - len(bad) - len([x for x in scns if x.get("oracle_only")]),
         "oracle_only_histories": len([x for x in scns if x.get("oracle_only")]),
+        "late_service_threads": LATE_SERVICE_THREADS[0],
         "rule": RULES[pid],
         "samples": [{"scenario": scns[sample_i], "log_head": [[r["t"], r["tid"], r["ev"]] for r in views[sample_i].log][:40]}],
         "events_total": sum(len(v.log) for v in views),
